@@ -241,3 +241,20 @@ def tree_model(rng, words, parents=None, free_root=True, ortho=True, limits_p=1.
     spec['actuators'].append({'kind': kind, 'joint': j['name'], 'gear': rng.choice([1, 2, 0.5]), 'kp': rng.choice([1, 4]), 'kv': rng.choice([0.5, 2]),
                               'ctrlrange': rng.choice([None, (-1, 1)]), 'forcerange': rng.choice([None, (-2, 2)])})
   return spec
+
+
+def merge_specs(specs):
+  """several models in one document (disconnected kinematic trees), names prefixed"""
+  merged = {'bodies': [], 'actuators': []}
+  for k, sp_ in enumerate(specs):
+    pre = chr(ord('A') + k)
+    base = len(merged['bodies'])
+    for b in sp_['bodies']:
+      b2 = dict(b)
+      b2['name'] = pre + b['name']
+      b2['parent'] = -1 if b['parent'] == -1 else b['parent'] + base
+      b2['joints'] = [dict(j, name=pre + j['name']) for j in b['joints']]
+      merged['bodies'].append(b2)
+    for a in sp_.get('actuators', []):
+      merged['actuators'].append(dict(a, joint=pre + a['joint']))
+  return merged
